@@ -551,7 +551,7 @@ Proof.
         -- destruct (after_server c _ _) as [s2 e2] eqn:Ea. injection H as <- <-.
            destruct (after_server_bufs _ _ _ _ _ Ea) as (E1 & E2 & E3). split.
            ++ intros it Hi. rewrite forwarded_app, E3, app_nil_r in Hi. right; right. apply Hearly. exact Hi.
-           ++ right; right; right. cbn in E1, E2. rewrite E1, E2, Ep. repeat split. left. reflexivity.
+           ++ right; right; right. cbn in E1, E2. rewrite E1, E2, Ep. repeat split.
         -- destruct (after_server c _ _) as [s2 e2] eqn:Ea. injection H as <- <-.
            destruct (after_server_bufs _ _ _ _ _ Ea) as (E1 & E2 & E3). split.
            ++ intros it Hi. rewrite forwarded_app in Hi. apply in_app_or in Hi. destruct Hi as [Hi|Hi].
@@ -560,34 +560,35 @@ Proof.
                  apply in_app_or in Hi. destruct Hi as [Hi|[<-|[]]].
                  --- right; left. destruct (Hacc it Hi) as (m' & -> & Hm'). exists m'. repeat split; [exact Hm'|rewrite Ep; reflexivity].
                  --- left. split; reflexivity.
-           ++ right; right; right. cbn in E1, E2. rewrite E1, E2, Ep. repeat split. left. reflexivity.
+           ++ right; right; right. cbn in E1, E2. rewrite E1, E2, Ep. repeat split.
       * injection H as <- <-. split.
         -- intros it Hi. rewrite forwarded_app in Hi. cbn [forwarded] in Hi. rewrite app_nil_r in Hi. right; right. apply Hearly. exact Hi.
-        -- right; right; right. cbn. rewrite Ep. repeat split. left. reflexivity.
+        -- right; right; right. cbn. rewrite Ep. repeat split.
     + injection H as <- <-. split; [intros it []|]. right; right; left. split; reflexivity.
     + injection H as <- <-. split; [intros it []|]. right; right; left. split; reflexivity.
   - (* MH *) cbn [step_inner] in H. injection H as <- <-. split; [intros it []|left; split; reflexivity].
 Qed.
 
+Lemma outer_checkout_ok c s m s' ev : outer_checkout c s m = (s', ev) ->
+  (is_sync m = true -> is_allow (pout s) = true) -> ok_step c s m s' ev.
+Proof.
+  unfold outer_checkout. intros H Hs.
+  destruct (pool_ok_of m) eqn:Eo.
+  - destruct (step_inner c (set_held s true false) m) as [s2 e2] eqn:Es. injection H as <- <-.
+    apply step_inner_ok in Es. exact Es.
+  - injection H as <- <-. split; [intros it []|]. destruct (is_sync m) eqn:Ey.
+    + right; right; right. cbn. repeat split. apply Hs. reflexivity.
+    + left. split; reflexivity.
+Qed.
+
 Lemma outer_rest_ok c s m s' ev : outer_rest c s m = (s', ev) -> ok_step c s m s' ev.
 Proof.
-  unfold outer_rest. intros H.
-  assert (Hin: forall s2 e2, step_inner c (set_held s true false) m = (s2, e2) -> ok_step c s m s2 (EvCheckout :: e2)).
-  { intros s2 e2 Hs. apply step_inner_ok in Hs. exact Hs. }
-  destruct (pout s) eqn:Ep.
-  - destruct (pool_ok_of m) eqn:Eo.
-    + destruct (step_inner c (set_held s true false) m) as [s2 e2] eqn:Es. injection H as <- <-.
-      specialize (Hin _ _ eq_refl). unfold ok_step in *. cbn [set_held ebuf pout] in Hin. rewrite Ep in Hin. rewrite Ep. exact Hin.
-    + injection H as <- <-. split; [intros it []|]. destruct (is_sync m).
-      * right; right; right. cbn. repeat split. right. exact Eo.
-      * left. split; reflexivity.
+  unfold outer_rest. intros H. destruct (pout s) eqn:Ep.
+  - apply outer_checkout_ok; [exact H|]. intros _. rewrite Ep. reflexivity.
   - injection H as <- <-. split; [intros it []|]. right; right; left. split; reflexivity.
-  - destruct (pool_ok_of m) eqn:Eo.
-    + destruct (step_inner c (set_held s true false) m) as [s2 e2] eqn:Es. injection H as <- <-.
-      specialize (Hin _ _ eq_refl). unfold ok_step in *. cbn [set_held ebuf pout] in Hin. rewrite Ep in Hin. rewrite Ep. exact Hin.
-    + injection H as <- <-. split; [intros it []|]. destruct (is_sync m).
-      * right; right; right. cbn. rewrite Ep. repeat split. right. exact Eo.
-      * left. split; reflexivity.
+  - destruct (is_sync m) eqn:Ey.
+    + injection H as <- <-. split; [intros it []|]. right; right; left. split; reflexivity.
+    + apply outer_checkout_ok; [exact H|]. intros Hc. congruence.
 Qed.
 
 Lemma step_ok c s m s' ev : step c s m = (s', ev) -> ok_step c s m s' ev.
@@ -639,16 +640,14 @@ Proof.
       - injection Hs as <- <-. reflexivity. }
     destruct (held s); [left; eapply Hi; exact H|].
     cbn [step_outer] in H. destruct (eff c parsed v); try (injection H as <- <-; left; reflexivity).
-    unfold outer_rest in H. destruct (pout s).
-    - cbn [pool_ok_of is_sync] in H. destruct pool_ok.
-      + destruct (step_inner c (set_held s true false) _) as [s2 e2] eqn:Es. injection H as <- <-.
-        left. apply Hi in Es. exact Es.
-      + injection H as <- <-. left. reflexivity.
+    assert (Hc: forall s2 e2, outer_checkout c s (MQ id parsed v pool_ok tx_after) = (s2, e2) -> ebuf s2 = ebuf s).
+    { intros s2 e2 Hr. unfold outer_checkout in Hr. cbn [pool_ok_of is_sync] in Hr. destruct pool_ok.
+      - destruct (step_inner c (set_held s true false) _) as [s3 e3] eqn:Es. injection Hr as <- <-. apply Hi in Es. exact Es.
+      - injection Hr as <- <-. reflexivity. }
+    unfold outer_rest in H. cbn [is_sync] in H. destruct (pout s).
+    - left. eapply Hc. exact H.
     - injection H as <- <-. right. reflexivity.
-    - cbn [pool_ok_of is_sync] in H. destruct pool_ok.
-      + destruct (step_inner c (set_held s true false) _) as [s2 e2] eqn:Es. injection H as <- <-.
-        left. apply Hi in Es. exact Es.
-      + injection H as <- <-. left. reflexivity. }
+    - left. eapply Hc. exact H. }
   destruct Hq as [Hq|Hq]; rewrite Hq in E.
   - exact (L _ _ E).
   - destruct (ebuf s); discriminate.
@@ -745,37 +744,31 @@ Proof.
   intros Hd Hp. unfold step. rewrite Hd. destruct (held s); cbn [step_inner step_outer]; unfold outer_rest; rewrite Hp; reflexivity.
 Qed.
 
-Lemma sync_answers_intercept c s id tx t :
+Lemma sync_answers_intercept c s id po tx t :
   dead s = false -> pout s = Intercept t ->
-  exists s', step c s (MS id true tx) = (s', (if held s then [] else [EvCheckout]) ++ [EvIntercept t]) /\
-             ebuf s' = [] /\ pout s' = Allow.
+  step c s (MS id po tx) = (consume s, [EvIntercept t]).
 Proof.
-  intros Hd Hp. unfold step. rewrite Hd. destruct (held s); cbn [step_inner step_outer].
-  - rewrite Hp. eexists. split; [reflexivity|]. split; reflexivity.
-  - unfold outer_rest. rewrite Hp. cbn [pool_ok_of step_inner set_held pout]. rewrite Hp.
-    eexists. split; [reflexivity|]. split; reflexivity.
+  intros Hd Hp. unfold step. rewrite Hd. destruct (held s); cbn [step_inner step_outer]; unfold outer_rest; rewrite Hp; reflexivity.
 Qed.
 
-(** No stale verdict: if every checkout succeeds, a non-Allow verdict is pending only
-    while the batch that earned it is still buffered. *)
+(** No stale verdict: a non-Allow verdict is pending only while the batch that earned it
+    is still buffered (whatever happens to checkouts). *)
 Definition fresh (s : state) : Prop := is_allow (pout s) = false -> ebuf s <> [].
 
-Lemma no_stale_from c ops : forall s, fresh s -> forallb pool_ok_of ops = true -> fresh (fst (run c s ops)).
+Lemma no_stale_from c ops : forall s, fresh s -> fresh (fst (run c s ops)).
 Proof.
-  induction ops as [|m r IH]; intros s F Hp; [exact F|].
-  cbn [forallb] in Hp. apply andb_true_iff in Hp. destruct Hp as [Hm Hr].
+  induction ops as [|m r IH]; intros s F; [exact F|].
   cbn [run]. destruct (step c s m) as [s1 e1] eqn:Es. destruct (run c s1 r) as [s2 e2] eqn:Er.
-  cbn [fst]. change s2 with (fst (s2, e2)). rewrite <- Er. apply IH; [|exact Hr].
+  cbn [fst]. change s2 with (fst (s2, e2)). rewrite <- Er. apply IH.
   destruct (step_ok _ _ _ _ _ Es) as [_ Hb]. unfold fresh in *.
-  destruct Hb as [[E1 E2]|[[E1 E2]|[[E1 E2]|(E1 & E2 & [E3|E3])]]].
+  destruct Hb as [[E1 E2]|[[E1 E2]|[[E1 E2]|(E1 & E2 & E3)]]].
   - rewrite E1, E2. exact F.
   - rewrite E1. intros _. destruct (ebuf s); discriminate.
   - rewrite E2. discriminate.
   - rewrite E2, E3. discriminate.
-  - rewrite E3 in Hm. discriminate.
 Qed.
 
-Lemma no_stale c ops : forallb pool_ok_of ops = true -> fresh (fst (run c init ops)).
+Lemma no_stale c ops : fresh (fst (run c init ops)).
 Proof. apply no_stale_from. intros H. discriminate. Qed.
 
 (** Plugins disabled (no [plugins] section, or the query parser off): no message is
@@ -845,7 +838,7 @@ Proof.
   intros Hd Hp H. unfold step in H. destruct (dead s); [injection H as <- <-; split; [exact Hp|reflexivity]|].
   destruct (held s); [eapply disabled_step_inner; eassumption|].
   assert (Ho: forall s2 e2, outer_rest c s m = (s2, e2) -> pout s2 = Allow /\ quiet e2).
-  { intros s2 e2 Hr. unfold outer_rest in Hr. rewrite Hp in Hr. destruct (pool_ok_of m).
+  { intros s2 e2 Hr. unfold outer_rest, outer_checkout in Hr. rewrite Hp in Hr. destruct (pool_ok_of m).
     - destruct (step_inner c (set_held s true false) m) as [s3 e3] eqn:Es. injection Hr as <- <-.
       destruct (disabled_step_inner c (set_held s true false) _ _ _ Hd Hp Es) as [E Q]. split; [exact E|exact Q].
     - injection Hr as <- <-. split; [destruct (is_sync m); exact Hp|reflexivity]. }
@@ -871,6 +864,6 @@ Proof.
   intros s id p v tx Hdead Hp. unfold step. rewrite Hdead.
   destruct (held s) eqn:Eh; cbn [step_outer step_inner]; rewrite (disabled_eff c p v Hd).
   - destruct (after_server c s tx). cbn. left. reflexivity.
-  - unfold outer_rest. rewrite Hp. cbn [pool_ok_of step_inner]. rewrite (disabled_eff c p v Hd).
+  - unfold outer_rest, outer_checkout. rewrite Hp. cbn [pool_ok_of step_inner]. rewrite (disabled_eff c p v Hd).
     destruct (after_server c (set_held s true false) tx). cbn. right. left. reflexivity.
 Qed.
